@@ -130,6 +130,10 @@ class Verifier:
             return V(TStr, fresh('fmt', z3.StringSort()))
         raise Unsupported('str.%s (no library lemma loaded)' % name)
     def str_join(self, ex, sep, seq): raise Unsupported('str.join over a symbolic sequence')
+    def str_reverse(self, ex, obj): raise Unsupported('reverse of a symbolic string (no library lemma loaded)')
+    def regex_sub(self, ex, rx, args, kwargs):
+        self.note_assumption('re.sub() result treated as an arbitrary string')
+        return V(TStr, fresh('resub', z3.StringSort()))
     def map_iter(self, ex, recv, name): raise Unsupported('dict.%s iteration (needs ordered map model)' % name)
 
     # ---- obligations
@@ -386,7 +390,9 @@ def concretize(m, v, depth=0):
     if ty is TNone: return None
     if ty is TInt: return ev(v.t).as_long()
     if ty is TBool: return z3.is_true(ev(v.t))
-    if ty is TStr: return ev(v.t).as_string()
+    if ty is TStr:
+        from .strlib import _unescape_z3
+        return _unescape_z3(ev(v.t).as_string())
     if ty is TFloat: return str(ev(v.t))
     if isinstance(ty, TEnum): return str(ev(v.t))
     if isinstance(ty, (TAny, TRef)): return str(ev(v.t))
